@@ -56,6 +56,17 @@ per property) -> the same obligation under a C06 label; `c09_tbu_future_error_di
 has not ended" was a C10 monitor only -> C09 label (the next step's pre-state cannot see it: a gone upstream *is* an ended upstream
 there); `c15_fu_with_capacity_zero_group`: `ctor_fu_0/2` now also push one future (a panic inside /repo is a violation) instead
 of only inspecting the group list.
+
+Round 8 (6 further changes, 69 in all). Predicted misses, extended before evaluation: `c02_fob_rejected_push_consumes_index`:
+"refused push moved the position counters" carried a C15 label only -> C02 twin, `fob_push_c2` added to C02's quick list;
+`c14_mu_wakes_on_readd`: `MergeUnbounded` had no C14 monitor -> "task woken although no child waker was invoked" in its poll
+step, `mu_poll_12_c1` added to C14's quick list; `c08_mu_consolidates_into_last_group`: the C08 address monitor of the
+`MergeUnbounded` poll step existed but only `mu_push_12` was in C08's quick list -> `mu_poll_12_c1` added.
+Two sub-agent results were not kept: one (C05, `futures_unordered_bounded.rs` / `slot_map.rs`) reported, after several attempts,
+that every small change there that re-polls or retains a finished child also breaks an existing test; one (C18) allocated in
+`FuturesOrderedBounded::poll_next`, a type C18 does not list (the bounded *ordered* queue is not among the "no allocation after
+construction" types), so a check that flagged it would demand more than the property states - and that sub-agent's report showed it
+had looked into /verif/seeded, against its instructions.
 """
 s = open(os.path.join(V, "DESIGN.md")).read()
 a = s.index("## 9. Seeded changes")
